@@ -72,6 +72,7 @@ type X struct {
 	trace    []string
 	started  time.Time
 	gate     chan struct{} // closed when the controlled phase begins
+	leak     string
 }
 
 // Config describes one scenario to explore.
@@ -316,9 +317,12 @@ type execResult struct {
 	diverged string
 	trace    []string
 	steps    int
+	leak     string
 }
 
 var progress atomic.Int64
+
+var leakReported = map[string]bool{}
 
 // BeforeExec functions run before every execution (reset of process-global perkeep state).
 var BeforeExec []func()
@@ -330,19 +334,35 @@ func runOne(t *testing.T, cfg *Config, prefix []int) (res execResult) {
 	s := vsync.New()
 	vsync.Install(s)
 	x := &X{S: s, cfg: cfg, prefix: prefix, gate: make(chan struct{})}
-	synctest.Test(t, func(t *testing.T) {
-		x.T = t
+	func() {
 		defer func() {
+			// synctest.Test panics when goroutines of the bubble are still blocked
+			// after the root returned (time stops then): a harness/cleanup problem,
+			// never a verdict about perkeep.
 			if r := recover(); r != nil {
-				x.Fail("panic|"+normPanic(r), fmt.Sprintf("scenario body panicked: %v\n%s", r, shortStack()))
+				x.leak = fmt.Sprint(r)
 			}
-			s.Kill()
 		}()
-		cfg.Body(x)
-	})
+		synctest.Test(t, func(t *testing.T) {
+			x.T = t
+			defer func() {
+				if r := recover(); r != nil {
+					x.Fail("panic|"+normPanic(r), fmt.Sprintf("scenario body panicked: %v\n%s", r, shortStack()))
+				}
+				s.Kill()
+				// let stragglers run out: goroutines woken by Kill exit at once; closers
+				// that linger on a short timer (leveldb waits 1s after Close) need fake time
+				for i := 0; i < 3; i++ {
+					synctest.Wait()
+					time.Sleep(2 * time.Second)
+				}
+			}()
+			cfg.Body(x)
+		})
+	}()
 	vsync.Install(nil)
 	progress.Add(1)
-	return execResult{nodes: x.nodes, fails: x.fails, deadlock: x.Deadlock, horizon: x.Horizon, diverged: x.diverged, trace: x.trace, steps: x.steps}
+	return execResult{nodes: x.nodes, fails: x.fails, deadlock: x.Deadlock, horizon: x.Horizon, diverged: x.diverged, trace: x.trace, steps: x.steps, leak: x.leak}
 }
 
 func choices(nodes []Node) []int {
@@ -358,7 +378,19 @@ func choices(nodes []Node) []int {
 // direct children of the default execution.
 func Explore(t *testing.T, cfg *Config, res *vk.Result, deadline time.Time) {
 	runtime.GOMAXPROCS(1)
+	// no GC inside executions: a GC cycle perturbs the order in which freshly spawned
+	// goroutines first run, which is the one thing the explorer cannot control
+	debug.SetGCPercent(-1)
 	startWatchdog(res)
+	t0 := time.Now()
+	defer func() {
+		if os.Getenv("VERIF_VERBOSE") != "" {
+			fmt.Fprintf(os.Stderr, "explored %s in %.2fs\n", cfg.Name, time.Since(t0).Seconds())
+		}
+	}()
+	if os.Getenv("VERIF_VERBOSE") != "" {
+		fmt.Fprintf(os.Stderr, "explore %s\n", cfg.Name)
+	}
 	sc := res.Scenario(cfg.Name)
 	sc.Bound = fmt.Sprintf("all schedules/choices with <= %d deviations (preemptions, injected faults, timer firings)", cfg.Bound)
 	type item struct {
@@ -377,6 +409,9 @@ func Explore(t *testing.T, cfg *Config, res *vk.Result, deadline time.Time) {
 			sc.Note = fmt.Sprintf("stopped by budget after %d executions; %d subtrees left unexplored", execs, len(stack)+1)
 			break
 		}
+		if execs%256 == 255 {
+			runtime.GC()
+		}
 		r := runOne(t, cfg, it.prefix)
 		for retry := 0; r.diverged != "" && retry < 3; retry++ {
 			// rare runtime-level nondeterminism (GC, preemption) can reorder freshly
@@ -388,6 +423,10 @@ func Explore(t *testing.T, cfg *Config, res *vk.Result, deadline time.Time) {
 		sc.Executions++
 		sc.Transitions += int64(r.steps)
 		sc.States += int64(len(r.nodes) - len(it.prefix)) // decision states first visited by this execution
+		if r.leak != "" && !leakReported[cfg.Name] {
+			leakReported[cfg.Name] = true
+			res.EngineError("%s: goroutines left blocked at the end of an execution (%s); verdicts of this scenario are still from complete runs", cfg.Name, r.leak)
+		}
 		if r.diverged != "" {
 			res.EngineError("%s: divergence while replaying prefix %v: %s", cfg.Name, it.prefix, r.diverged)
 			sc.Exhaustive = false
